@@ -4,6 +4,10 @@ import CvssVerif.Spec.V3
 import CvssVerif.Spec.V2
 import CvssVerif.Spec.Grammar3
 import CvssVerif.Spec.Grammar2
+import CvssVerif.Proofs.Score3Defs
+import CvssVerif.Proofs.Score2Defs
+import CvssVerif.Proofs.Consts
+import CvssVerif.Proofs.C03Glue
 /-
   C20 — value codes, enumeration values and weights form the specification's tables.
 
@@ -53,11 +57,18 @@ def RoundTrip (m : Metric) : Bool :=
 theorem v3_tables_ok : ∀ m ∈ V3.M3.all, TableOK m.spec = true ∧ RoundTrip m.spec = true := by
   decide
 
-/-- the v3 model's code lists are the specification's, metric by metric, same names, same levels -/
+/-- same set of codes -/
+def sameCodes (a b : List Bytes) : Bool :=
+  a.length == b.length && a.all (fun c => b.contains c) && b.all (fun c => a.contains c)
+
+/-- the v3 model's code lists are the specification's, metric by metric: same names, same
+    levels, same code sets, in the same (specification) order of metrics -/
 theorem v3_codes_are_spec :
-    V3.M3.all.map (fun m => (m.spec.name, m.spec.level, (m.spec.codes.map (·.2)).mergeSort (fun a b => decide (a ≤ b))))
-      = Spec3.metrics.map (fun m => (m.name, m.level, m.codes.mergeSort (fun a b => decide (a ≤ b)))) := by
-  decide
+    (V3.M3.all.length == Spec3.metrics.length &&
+      (V3.M3.all.zip Spec3.metrics).all fun p =>
+        p.1.spec.name == p.2.name && p.1.spec.level == p.2.level &&
+        sameCodes (p.1.spec.codes.map (·.2)) p.2.codes) = true := by
+  decide +kernel
 
 /-- unknown (0) prints as empty text and fails every v3 validity predicate; every table value
     passes it -/
@@ -67,12 +78,21 @@ theorem v3_validity : ∀ m ∈ V3.M3.all,
 
 /-- v3 weights are the specification's table, value by value (exact decimal → nearest double) -/
 theorem v3_weights :
-    (∀ x, P.fAV x = ofRat (Spec3.wAV x)) ∧ (∀ x, P.fAC x = ofRat (Spec3.wAC x)) ∧
-    (∀ s x, P.fPR s x = ofRat (Spec3.wPR s x)) ∧ (∀ x, P.fUI x = ofRat (Spec3.wUI x)) ∧
-    (∀ x, P.fCIA x = ofRat (Spec3.wCIA x)) ∧ (∀ x, P.fE x = ofRat (Spec3.wE x)) ∧
-    (∀ x, P.fRL x = ofRat (Spec3.wRL x)) ∧ (∀ x, P.fRC x = ofRat (Spec3.wRC x)) ∧
-    (∀ x, P.fReq x = ofRat (Spec3.wReq x)) := by
-  refine ⟨?_, ?_, ?_, ?_, ?_, ?_, ?_, ?_, ?_⟩ <;> intros <;> rename_i x <;> revert x <;> decide +kernel
+    (∀ x, P3.fAV x = ofRat (Spec3.wAV x)) ∧ (∀ x, P3.fAC x = ofRat (Spec3.wAC x)) ∧
+    (∀ s x, P3.fPR s x = ofRat (Spec3.wPR s x)) ∧ (∀ x, P3.fUI x = ofRat (Spec3.wUI x)) ∧
+    (∀ x, P3.fCIA x = ofRat (Spec3.wCIA x)) ∧ (∀ x, P3.fE x = ofRat (Spec3.wE x)) ∧
+    (∀ x, P3.fRL x = ofRat (Spec3.wRL x)) ∧ (∀ x, P3.fRC x = ofRat (Spec3.wRC x)) ∧
+    (∀ x, P3.fReq x = ofRat (Spec3.wReq x)) := by
+  refine ⟨?_, ?_, ?_, ?_, ?_, ?_, ?_, ?_, ?_⟩
+  · intro x; cases x <;> decide +kernel
+  · intro x; cases x <;> decide +kernel
+  · intro s x; cases s <;> cases x <;> decide +kernel
+  · intro x; cases x <;> decide +kernel
+  · intro x; cases x <;> decide +kernel
+  · intro x; cases x <;> decide +kernel
+  · intro x; cases x <;> decide +kernel
+  · intro x; cases x <;> decide +kernel
+  · intro x; cases x <;> decide +kernel
 
 /-- the version label parser and printer are inverse on {3.0, 3.1}; everything else is unknown -/
 theorem version_labels :
@@ -81,11 +101,15 @@ theorem version_labels :
     (∀ v : Int, v ≠ 1 → v ≠ 2 → V3.verStr v = b!"unknown") := by
   refine ⟨by decide, by decide, by decide, by decide, ?_, ?_⟩
   · intro s h0 h1
+    have e0 : (b!"3.0" == s) = false := by simpa using Ne.symm h0
+    have e1 : (b!"3.1" == s) = false := by simpa using Ne.symm h1
     unfold V3.verGet V3.verLabels
-    simp [List.find?, h0.symm, h1.symm, Ne.symm h0, Ne.symm h1]
+    simp only [List.find?, e0, e1]
   · intro v h1 h2
+    have e1 : ((1 : Int) == v) = false := by simpa using Ne.symm h1
+    have e2 : ((2 : Int) == v) = false := by simpa using Ne.symm h2
     unfold V3.verStr V3.verLabels
-    simp [List.find?, Ne.symm h1, Ne.symm h2]
+    simp only [List.find?, e1, e2]
 
 /-! ### v2 -/
 
@@ -93,10 +117,45 @@ theorem v2_tables_ok : ∀ m ∈ V2.M2.all, TableOK m.spec = true ∧ RoundTrip 
   decide
 
 theorem v2_codes_are_spec :
-    V2.M2.all.map (fun m => (m.spec.name, m.spec.level, (m.spec.codes.map (·.2)).mergeSort (fun a b => decide (a ≤ b))))
-      = Spec2.metrics.map (fun m => (m.name, m.level, m.codes.mergeSort (fun a b => decide (a ≤ b)))) := by
-  decide
+    (V2.M2.all.length == Spec2.metrics.length &&
+      (V2.M2.all.zip Spec2.metrics).all fun p =>
+        p.1.spec.name == p.2.name && p.1.spec.level == p.2.level &&
+        sameCodes (p.1.spec.codes.map (·.2)) p.2.codes) = true := by
+  decide +kernel
 
 theorem v2_unknown_prints_empty : ∀ m ∈ V2.M2.all, m.spec.str 0 = [] := by decide
+
+/-- v2 weights are the specification's table, value by value -/
+theorem v2_weights :
+    (∀ x, V2.value .AV (P2.iAV x) = ofRat (Spec2.wAV x)) ∧ (∀ x, V2.value .AC (P2.iAC x) = ofRat (Spec2.wAC x)) ∧
+    (∀ x, V2.value .Au (P2.iAu x) = ofRat (Spec2.wAu x)) ∧
+    (∀ x, V2.value .C (P2.iCIA .C x) = ofRat (Spec2.wCIA x)) ∧ (∀ x, V2.value .I (P2.iCIA .I x) = ofRat (Spec2.wCIA x)) ∧
+    (∀ x, V2.value .A (P2.iCIA .A x) = ofRat (Spec2.wCIA x)) ∧
+    (∀ x, V2.value .E (P2.iE x) = ofRat (Spec2.wE x)) ∧ (∀ x, V2.value .RL (P2.iRL x) = ofRat (Spec2.wRL x)) ∧
+    (∀ x, V2.value .RC (P2.iRC x) = ofRat (Spec2.wRC x)) ∧ (∀ x, V2.value .CDP (P2.iCDP x) = ofRat (Spec2.wCDP x)) ∧
+    (∀ x, V2.value .TD (P2.iTD x) = ofRat (Spec2.wTD x)) ∧
+    (∀ x, V2.value .CR (P2.iReq .CR x) = ofRat (Spec2.wReq x)) ∧ (∀ x, V2.value .IR (P2.iReq .IR x) = ofRat (Spec2.wReq x)) ∧
+    (∀ x, V2.value .AR (P2.iReq .AR x) = ofRat (Spec2.wReq x)) := by
+  refine ⟨?_, ?_, ?_, ?_, ?_, ?_, ?_, ?_, ?_, ?_, ?_, ?_, ?_, ?_⟩ <;> intro x <;> cases x <;> decide +kernel
+
+/-- the Modified metrics' weights: Not Defined takes the base metric's weight, Modified Scope
+    selects the Privileges Required table (these are the reduction lemmas C03 rests on) -/
+theorem v3_modified_weights :
+    (∀ m b, V3.valueMAV (P3.iMAV m) (P3.iAV b) = P3.fAV (Spec3.eff m b)) ∧
+    (∀ m b, V3.valueMAC (P3.iMAC m) (P3.iAC b) = P3.fAC (Spec3.eff m b)) ∧
+    (∀ m b, V3.valueMUI (P3.iMUI m) (P3.iUI b) = P3.fUI (Spec3.eff m b)) ∧
+    (∀ m ms s b, V3.valueMPR (P3.iMPR m) (P3.iMS ms) (P3.iS s) (P3.iPR b) = P3.fPR (Spec3.eff ms s) (Spec3.eff m b)) ∧
+    (∀ m b, V3.valueMCIA .MC (P3.iMCIA .MC m) (P3.iCIA .C b) = P3.fCIA (Spec3.eff m b)) ∧
+    (∀ m b, V3.valueMCIA .MI (P3.iMCIA .MI m) (P3.iCIA .I b) = P3.fCIA (Spec3.eff m b)) ∧
+    (∀ m b, V3.valueMCIA .MA (P3.iMCIA .MA m) (P3.iCIA .A b) = P3.fCIA (Spec3.eff m b)) :=
+  ⟨P3.valueMAV_eff, P3.valueMAC_eff, P3.valueMUI_eff, P3.valueMPR_eff, P3.valueMC_eff, P3.valueMI_eff, P3.valueMA_eff⟩
+
+/-- the literal bit patterns in the model files are the Go compiler's conversions of the decimal
+    constants in the source -/
+theorem literals_are_decimals :
+    V3.wAV = [(1, ofDec 20 2), (2, ofDec 55 2), (3, ofDec 62 2), (4, ofDec 85 2)] ∧
+    V2.wAV = [(1, ofDec 395 3), (2, ofDec 646 3), (3, ofNat 1)] ∧
+    V3.c642 = ofDec 642 2 ∧ V2.c1041 = ofDec 1041 2 :=
+  ⟨Consts.v3_weights.1, Consts.v2_weights.1, Consts.v3_consts.1, Consts.v2_consts.1⟩
 
 end CvssVerif.Props.C20
